@@ -9,6 +9,9 @@ func init() {
 	vRegister("vC21_random", vC21_random)
 	vRegister("vC21_fanout", vC21_fanout)
 	vRegister("vC21_fresh", vC21_fresh)
+	vRegister("vC21_hashRing", vC21_hashRing)
+	vRegister("vC21_rrPool", vC21_rrPool)
+	vRegister("vC21_hashRouter", vC21_hashRouter)
 }
 
 var vC21_sent []*PID
@@ -100,5 +103,212 @@ func vC21_fanout() {
 		}
 		vAssert(c == 1, "every routee receives the message exactly once")
 	}
+	vCover("end")
+}
+
+// ---- consistent-hash routing: the hasher is an arbitrary function on the strings that occur (symbolic table)
+type vC21Hasher struct{}
+
+var vC21_hv [8]uint64 // hashes of A#0 A#1 B#0 B#1 C#0 C#1 and of the routing keys k1 k2
+
+func (vC21Hasher) HashCode(b []byte) uint64 {
+	switch string(b) {
+	case "A#0":
+		return vC21_hv[0]
+	case "A#1":
+		return vC21_hv[1]
+	case "B#0":
+		return vC21_hv[2]
+	case "B#1":
+		return vC21_hv[3]
+	case "C#0":
+		return vC21_hv[4]
+	case "C#1":
+		return vC21_hv[5]
+	case "k1":
+		return vC21_hv[6]
+	case "k2":
+		return vC21_hv[7]
+	}
+	vAssert(len(b) == 3, "harness: hasher asked for a string of another length")
+	if len(b) == 3 {
+		vAssert(b[1] == '#', "harness: hasher b[1]")
+		vAssert(b[0] == 'A' || b[0] == 'B' || b[0] == 'C', "harness: hasher b[0]")
+		vAssert(b[2] == '0' || b[2] == '1', "harness: hasher b[2]")
+	}
+	return 0
+}
+
+// substitutions (checks/c21.py): slices.Sort on []uint64, sort.Search and the unsafe string->bytes view
+func vC21_sort(keys []uint64) {
+	for i := 1; i < len(keys); i++ {
+		for j := i; j > 0 && keys[j-1] > keys[j]; j-- {
+			keys[j-1], keys[j] = keys[j], keys[j-1]
+		}
+	}
+}
+func vC21_search(n int, f func(int) bool) int {
+	i, j := 0, n
+	for i < j {
+		h := int(uint(i+j) >> 1)
+		if !f(h) {
+			i = h + 1
+		} else {
+			j = h
+		}
+	}
+	return i
+}
+func vC21_s2b(s string) []byte { return []byte(s) }
+
+// virtual-node hashes are one of a few fixed placements (concrete, distinct; incl. 0 and the largest uint64), the hashes of
+// the routing keys are arbitrary uint64 values
+var vC21_layouts = [3][6]uint64{
+	{10, 50, 20, 60, 30, 40},
+	{0, ^uint64(0), 7, 1 << 63, 8, 1<<63 + 1},
+	{5, 6, 1, 2, 3, 4},
+}
+
+func vC21_hashes(layout int) {
+	for i := 0; i < 6; i++ {
+		vC21_hv[i] = vC21_layouts[layout][i]
+	}
+	vC21_hv[6] = vNondetUint64("hash(k1)")
+	vC21_hv[7] = vNondetUint64("hash(k2)")
+}
+
+// reference: the member whose virtual node has the smallest hash >= h, else the one with the smallest hash overall
+func vC21_owner(h uint64, present [3]bool) int {
+	best, bestAny := -1, -1
+	var bh, bah uint64
+	for v := 0; v < 6; v++ {
+		if !present[v/2] {
+			continue
+		}
+		x := vC21_hv[v]
+		if bestAny < 0 || x < bah {
+			bestAny, bah = v/2, x
+		}
+		if x >= h && (best < 0 || x < bh) {
+			best, bh = v/2, x
+		}
+	}
+	if best >= 0 {
+		return best
+	}
+	return bestAny
+}
+
+func vC21_hashRing() {
+	vC21_hashes(vCase("layout"))
+	names := [3]string{"A", "B", "C"}
+	ring := newConsistentHashRing(vC21Hasher{}, 2)
+	vAssert(ring.lookup("k1") == "", "an empty ring owns nothing")
+	ring.set([]string{"A", "B", "C"})
+	vAssert(ring.len() == 6, "every member is placed at virtualNodes points")
+	all := [3]bool{true, true, true}
+	o1, o2 := ring.lookup("k1"), ring.lookup("k2")
+	vAssert((o1 == "A" || o1 == "B" || o1 == "C") && (o2 == "A" || o2 == "B" || o2 == "C"), "every key maps to a member of the ring")
+	if o1 == names[vC21_owner(vC21_hv[6], all)] {
+		vCover("first-clockwise-virtual-node") // the usual rule; not required by the property, so only a witness
+	}
+	vAssert(ring.lookup("k1") == o1, "equal keys map to the same member while membership is unchanged")
+	if vC21_hv[6] == vC21_hv[7] {
+		vAssert(o1 == o2, "keys with equal hashes map to the same member")
+	}
+	gone := vCase("removed")
+	members := make([]string, 0, 2)
+	present := all
+	present[gone] = false
+	for i := 0; i < 3; i++ {
+		if i != gone {
+			members = append(members, names[i])
+		}
+	}
+	ring.set(members)
+	n1, n2 := ring.lookup("k1"), ring.lookup("k2")
+	vAssert(n1 != names[gone] && n2 != names[gone] && n1 != "" && n2 != "", "after a removal every key maps to a remaining member")
+	if o1 != names[gone] {
+		vAssert(n1 == o1, "removing a routee only moves the keys it owned (k1)")
+		vCover("kept")
+	} else {
+		vCover("moved")
+	}
+	if o2 != names[gone] {
+		vAssert(n2 == o2, "removing a routee only moves the keys it owned (k2)")
+	}
+	if vC21_hv[6] > vC21_hv[0] && vC21_hv[6] > vC21_hv[1] && vC21_hv[6] > vC21_hv[2] && vC21_hv[6] > vC21_hv[3] && vC21_hv[6] > vC21_hv[4] && vC21_hv[6] > vC21_hv[5] {
+		vCover("wrap-around")
+	}
+	vCover("end")
+}
+
+// the router arm: rebuildHashRing + dispatchToRoutees with the consistent-hash strategy
+func vC21_hashRouter() {
+	vC21_hashes(vCase("layout"))
+	pa, pb := &PID{}, &PID{}
+	pa.setState(runningState, true)
+	pb.setState(runningState, true)
+	bRunning := vNondetBool("bRunning")
+	pb.setState(runningState, bRunning)
+	r := &router{routingStrategy: ConsistentHashRouting, kind: standardRouter, hasher: vC21Hasher{}, virtualNodes: 2,
+		routeesMap:          map[string]*PID{"A": pa, "B": pb},
+		routingKeyExtractor: func(msg any) string { return msg.(string) }}
+	r.rebuildHashRing()
+	routees := []*PID{pa, pb}
+	ctx := &ReceiveContext{self: &PID{}}
+	vC21_sent = nil
+	r.dispatchToRoutees(ctx, "k1", routees)
+	r.dispatchToRoutees(ctx, "k1", routees)
+	r.dispatchToRoutees(ctx, "k2", routees)
+	vAssert(len(vC21_sent) == 3, "each routed message is sent exactly once (none dropped)")
+	vAssert(vC21_indexOf(routees, vC21_sent[0]) >= 0 && vC21_indexOf(routees, vC21_sent[2]) >= 0, "consistent-hash routing picks a routee of the pool")
+	if bRunning {
+		vAssert(vC21_sent[0] == vC21_sent[1], "messages with equal keys go to the same routee while membership is unchanged")
+		if vC21_hv[6] == vC21_hv[7] {
+			vAssert(vC21_sent[2] == vC21_sent[0], "keys with equal hashes go to the same routee")
+		}
+		vCover("all-running")
+	} else {
+		vCover("owner-not-running") // falls back to a random routee of the list: nothing to assert beyond pool membership
+	}
+	if vC21_sent[0] != vC21_sent[2] {
+		vCover("two-routees-used")
+	}
+	vCover("end")
+}
+
+// substituted for slices.SortFunc on []*PID (checks/c21.py)
+func vC21_sortPIDs(x []*PID, cmp func(a, b *PID) int) {
+	for i := 1; i < len(x); i++ {
+		for j := i; j > 0 && cmp(x[j-1], x[j]) > 0; j-- {
+			x[j-1], x[j] = x[j], x[j-1]
+		}
+	}
+}
+
+func vC21_pid(name string) *PID {
+	p := &PID{path: &path{host: "host", port: 1, name: name, system: "sys", cachedStr: "/" + name, cachedHostPort: "host:1"}}
+	p.setState(runningState, true)
+	return p
+}
+
+// the whole router arm for Broadcast messages: availableRoutees (a Go map, iterated in an order the solver chooses anew
+// for every message: opts map_order) + dispatchToRoutees. n consecutive messages must reach n different routees.
+func vC21_rrPool() {
+	pids := [3]*PID{vC21_pid("pool-2"), vC21_pid("pool-0"), vC21_pid("pool-1")}
+	r := &router{routingStrategy: RoundRobinRouting, kind: standardRouter, poolSize: 3, routeesMap: map[string]*PID{}}
+	for i := 0; i < 3; i++ {
+		r.routeesMap[pids[i].ID()] = pids[i]
+	}
+	sender := &PID{}
+	vC21_sent = nil
+	for k := 0; k < 3; k++ {
+		ctx := &ReceiveContext{self: &PID{}, sender: sender, message: NewBroadcast("m")}
+		r.handleBroadcast(ctx)
+	}
+	vAssert(len(vC21_sent) == 3, "each routed message is sent exactly once (none dropped)")
+	vAssert(vC21_sent[0] != vC21_sent[1] && vC21_sent[1] != vC21_sent[2] && vC21_sent[0] != vC21_sent[2],
+		"n consecutive messages of a round-robin router reach n different routees (the pool has a stable order)")
 	vCover("end")
 }
